@@ -218,10 +218,10 @@ Definition src_get_inner_type : list string :=  [
    "return inner_type"].
 
 Definition src_Collection_to_mir : list string :=  [
-   "if isinstance(self, (Array, ArrayType)): ;     size = {'size': self.size} if self.size else {} ;     contained_type = self.retrieve_inner_type() ;     return {'Array': {'inner_type': contained_type, **size}}"; 
+   "if isinstance(self, (Array, ArrayType)): ;     size = {'size': self.size} if self.size is not None else {} ;     contained_type = self.retrieve_inner_type() ;     return {'Array': {'inner_type': contained_type, **size}}"; 
    "if isinstance(self, (Tuple, TupleType)): ;     return {'Tuple': {'left_type': self.left_type.to_mir() if isinstance(self.left_type, (NadaType, ArrayType, TupleType)) else self.left_type.class_to_mir(), 'right_type': self.right_type.to_mir() if isinstance(self.right_type, (NadaType, ArrayType, TupleType)) else self.right_type.class_to_mir()}}"; 
-   "if isinstance(self, NTuple): ;     return {'NTuple': {'types': [ty.to_mir() if isinstance(ty, (NadaType, ArrayType, TupleType)) else ty.class_to_mir() for ty in [type(value) for value in self.values]]}}"; 
-   "if isinstance(self, Object): ;     return {'Object': {'types': {name: ty.to_mir() if isinstance(ty, (NadaType, ArrayType, TupleType)) else ty.class_to_mir() for name, ty in [(name, type(value)) for name, value in self.values.items()]}}}"; 
+   "if isinstance(self, NTuple): ;     return {'NTuple': {'types': [ty.to_mir() if isinstance(ty, (NadaType, ArrayType, TupleType)) else ty.class_to_mir() for ty in [value for value in self.values]]}}"; 
+   "if isinstance(self, Object): ;     return {'Object': {'types': {name: ty.to_mir() if isinstance(ty, (NadaType, ArrayType, TupleType)) else ty.class_to_mir() for name, ty in [(name, value) for name, value in self.values.items()]}}}"; 
    "raise InvalidTypeError(f'{self.__class__.__name__} is not a valid Nada Collection')"].
 
 Definition src_Collection_retrieve_inner_type : list string :=  [
